@@ -335,7 +335,7 @@ func OHealthExact(w *World) error {
 				var m *atree.OrderedMap
 				m, err = atree.NewMapWithRootID(st6, host.SID, w.builderFor(host))
 				if err == nil {
-					_, err = m.Set(tu.CompareValue, tu.GetHashInput, tu.Uint64Value(987654), refValue{target})
+					_, err = m.Set(CompareValue, GetHashInput, tu.Uint64Value(987654), refValue{target})
 				}
 			} else {
 				var a *atree.Array
@@ -376,7 +376,7 @@ func OHealthExact(w *World) error {
 		if host.IsMap {
 			m, err := atree.NewMapWithRootID(st7, host.SID, w.builderFor(host))
 			if err == nil {
-				_, err = m.Set(tu.CompareValue, tu.GetHashInput, tu.Uint64Value(987655), foreign)
+				_, err = m.Set(CompareValue, GetHashInput, tu.Uint64Value(987655), foreign)
 			}
 			if err != nil {
 				return fmt.Errorf("harness: attaching a foreign child: %w", err)
